@@ -1,5 +1,7 @@
 """C06 - a rejected operation leaves the configuration exactly as it was."""
 import os
+import random
+import zlib
 
 from .. import gen, history, model, spec
 from ..common import weighted
@@ -19,7 +21,8 @@ RULE = ("C01's schemas and reachable states (a valid prefix history), then faili
         "fields/include_field.py during loads/load; whenever such an operation raises, M-same compares values at all "
         "depths, user-defined flags and identities of nested configurations before/after; non-trivial = >= 2 "
         "raising listed operations judged; distinct = distinct (schema, history)")
-REQUIRED = ("roots_that_are_sequences_of_pairs_rejected", "section_objects_refused_by_a_list", "failed_loads_with_late_or_chained_includes", "failed_loads_after_the_environment_changed", "foreign_items_rejected_by_a_second_configuration", "readonly_assignments_rejected", "rejected_replacements_through_an_equal_key_of_another_type", "dotted_continuations_into_nested_dicts_rejected", "derived_containers_rejected_by_field_validator", "list_reuse_rejections", "wrong_root_documents_rejected", "incomplete_objects_rejected", "incomplete_maps_rejected", "dotted_into_dict_rejections", "corrupt_include_files", "same_checks", "raised:set", "raised:set-sub", "raised:ctor", "raised:listop", "raised:dictop",
+REQUIRED = ("own_sections_and_items_offered_to_a_list_rejected", "own_maps_offered_to_sections_and_lists_rejected",
+            "roots_that_are_sequences_of_pairs_rejected", "section_objects_refused_by_a_list", "failed_loads_with_late_or_chained_includes", "failed_loads_after_the_environment_changed", "foreign_items_rejected_by_a_second_configuration", "readonly_assignments_rejected", "rejected_replacements_through_an_equal_key_of_another_type", "dotted_continuations_into_nested_dicts_rejected", "derived_containers_rejected_by_field_validator", "list_reuse_rejections", "wrong_root_documents_rejected", "incomplete_objects_rejected", "incomplete_maps_rejected", "dotted_into_dict_rejections", "corrupt_include_files", "same_checks", "raised:set", "raised:set-sub", "raised:ctor", "raised:listop", "raised:dictop",
             "raised:loads-unparsable", "raised:loads-include", "failpoint_injections_raised")
 ASSUMPTIONS = ["only the kinds of operation listed in the property are judged (a tree that parses but fails validation "
                "half way, extend / slice / update with a bad element are outside the statement)",
@@ -130,7 +133,85 @@ def generate(rng, ctx):
     if rng.random() < (0.6 if thorough else 0.25):
         tree = gen.tree_for(rng, schema, env, valid=True, partial=0.5)
         ops.append({"op": "loads", "tree": tree, "fmt": rng.choice(history.FORMATS), "failpoints": rng.getrandbits(30)})
-    return {"schema": schema, "prefix": prefix, "ops": ops}
+    own = own_spec(random.Random(zlib.crc32(repr((len(prefix), ops)).encode("ascii", "backslashreplace"))))
+    return {"schema": schema, "prefix": prefix, "ops": ops, "own": own}
+
+
+_OWN_KEYS = ("log_level", "max_size", "base_port", "display_name", "is_on", "time_out", "rate_limit", "mode_x", "tag", "x_y_z")
+_OWN_DECLS = {
+    # defaults written the way people write them in a declaration or copy them from a document; the library stores a declared
+    # default as it is, validation gives the field's own form (which nothing may write back while it rejects)
+    "loglevel": ["INFO", "Debug", "WARNING", "Error", "info"],
+    "int": ["8080", "7", " 12 ", 5],
+    "port": ["80", "8443", 22],
+    "float": ["1.5", "2", 3, 0.25],
+    "bool": ["yes", "on", "true", "1", True],
+    "lower": ["MiXed", "UPPER", "lower"],
+    "upper": ["MiXed", "lower"],
+    "strip": ["  padded ", "\ttab", "plain"],
+    "str": ["plain", "text"],
+}
+_OWN_GOOD = {"loglevel": ["debug", "error"], "int": [1, 65], "port": [81, 8080], "float": [0.5, 2.0], "bool": [True, False],
+             "lower": ["abc"], "upper": ["ABC"], "strip": ["abc"], "str": ["abc", "d e"], "required": ["given", "n2"]}
+_OWN_BAD = {"loglevel": ["loud", 5], "int": ["many", [1]], "port": [70000, "p"], "float": ["x", [2.0]], "bool": ["perhaps", [True]],
+            "lower": [5, ["a"]], "upper": [5, None], "strip": [7, {"a": 1}], "str": [5, ["a"]], "required": [None, 5]}
+
+
+def _own_spelling(rng, key):
+    how = rng.choice(["exact", "exact", "dash", "dash", "dash", "upper", "capital", "space", "dot", "camel"])
+    if how == "dash":
+        return key.replace("_", "-")
+    if how == "upper":
+        return key.upper()
+    if how == "capital":
+        return key.capitalize()
+    if how == "space":
+        return rng.choice([key + " ", " " + key, key.replace("_", " ")])
+    if how == "dot":
+        return key.replace("_", ".")
+    if how == "camel":
+        parts = key.split("_")
+        return parts[0] + "".join(x.capitalize() for x in parts[1:])
+    return key
+
+
+def own_spec(rng):
+    """Spec of the directed scenario `_own_objects_offered_again`: a configuration type (fields whose declared defaults are not
+    in the field's own form, a required field without a default, a nested section), sections and a list of that type, holders
+    of raw maps; then operations whose rejected argument is an object the configuration ITSELF holds."""
+    keys = rng.sample(_OWN_KEYS, rng.choice([2, 3, 4, 5]))
+    fields = [{"key": k, "decl": (d := rng.choice(sorted(_OWN_DECLS))), "default": rng.choice(_OWN_DECLS[d])} for k in keys]
+    fields.insert(rng.choice([len(fields), len(fields), rng.randrange(len(fields) + 1)]), {"key": "name_of", "decl": "required"})
+    inner = [{"key": k, "decl": (d := rng.choice(sorted(_OWN_DECLS))), "default": rng.choice(_OWN_DECLS[d])}
+             for k in rng.sample(("retry_count", "back_off", "deep_x"), rng.choice([0, 1, 2]))]
+
+    def a_map(want_bad):
+        chosen = [f for f in fields if rng.random() < 0.7] or [fields[0]]
+        rng.shuffle(chosen)
+        pairs = []
+        for f in chosen:
+            pool = _OWN_BAD if want_bad and rng.random() < 0.5 else _OWN_GOOD
+            pairs.append([_own_spelling(rng, f["key"]), rng.choice(pool[f["decl"]])])
+        if inner and rng.random() < 0.5:
+            f = rng.choice(inner)
+            pool = _OWN_BAD if want_bad and rng.random() < 0.5 else _OWN_GOOD
+            pairs.insert(rng.randrange(len(pairs) + 1),
+                         [_own_spelling(rng, "opts_in"), [[_own_spelling(rng, f["key"]), rng.choice(pool[f["decl"]])]], "nested"])
+        return pairs
+
+    steps = []
+    for _ in range(rng.choice([3, 4, 5])):
+        steps.append({"what": rng.choice(["section", "section", "reset-section", "reset-item", "reset-item"]),
+                      "route": rng.choice(["append", "insert", "setitem", "assign-attr", "assign-item"]),
+                      "i": rng.choice([0, 1, -1, -2, 2, 7]), "keep": rng.random() < 0.5})
+    for _ in range(rng.choice([3, 4, 5])):
+        steps.append({"what": "map", "holder": rng.choice(["dict", "dict", "any", "list", "dynamic"]), "pairs": a_map(rng.random() < 0.7),
+                      "route": rng.choice(["append", "insert", "setitem", "assign-attr", "assign-item", "section-attr", "section-attr",
+                                           "section-item", "section-item"]),
+                      "i": rng.choice([0, 1, -1, 2, 7])})
+    rng.shuffle(steps)
+    return {"fields": fields, "inner": inner, "nest": rng.random() < 0.4, "astype": rng.random() < 0.7, "prefill": rng.choice([0, 1, 2, 3]),
+            "steps": steps}
 
 
 def late_invalid(rng, node, env):
@@ -256,7 +337,8 @@ def targeted_ops(rng, schema, env):
 
 
 def abbreviate(case):
-    return {"schema": case["schema"], "prefix_ops": len(case["prefix"]), "ops": case["ops"][:6], "ops_total": len(case["ops"])}
+    return {"schema": case["schema"], "prefix_ops": len(case["prefix"]), "ops": case["ops"][:6], "ops_total": len(case["ops"]),
+            "own": case.get("own")}
 
 
 def _in_anchor_files(rel):
@@ -338,6 +420,8 @@ def run(case, ctx, res):
         return
     if not _section_object_offered_to_a_list(ctx, res, len(case["ops"])):
         return
+    if case.get("own") and not _own_objects_offered_again(ctx, res, case["own"]):
+        return
     if len(case["ops"]) % 5 == 0 and not _failed_loads_after_environment_change(ctx, res, len(case["prefix"])):
         return
     if len(case["ops"]) % 5 == 1 and not _late_and_chained_includes(ctx, res, len(case["prefix"]) + len(case["ops"])):
@@ -406,6 +490,143 @@ def run(case, ctx, res):
                     return
     if judged >= 2:
         res.nontrivial(case["schema"], case["prefix"], case["ops"])
+
+
+def _own_field(cc, f):
+    decl, kw = f["decl"], ({"default": f["default"]} if "default" in f else {})
+    if decl == "required":
+        return cc.StringField(required=True)
+    if decl == "loglevel":
+        return cc.LogLevelField(**kw)
+    if decl == "int":
+        return cc.IntField(**kw)
+    if decl == "port":
+        return cc.PortField(**kw)
+    if decl == "float":
+        return cc.FloatField(**kw)
+    if decl == "bool":
+        return cc.BoolField(**kw)
+    if decl in ("lower", "upper"):
+        return cc.StringField(transform_case=decl, **kw)
+    if decl == "strip":
+        return cc.StringField(transform_strip=True, **kw)
+    return cc.StringField(**kw)
+
+
+def _own_objects_offered_again(ctx, res, own):
+    """The rejected argument is an object the configuration itself holds: (A) a section of a list's item type, or an item of
+    the list whose required value was reset, offered to that list (append / insert / l[i]= / a whole-list assignment ending
+    with it); (B) a raw map stored by an untyped dict / any / untyped list / dynamic field, offered to a section (attribute,
+    dotted path) or to the list, with keys spelled almost like the fields' keys and / or a rejected entry.  Whatever raises
+    leaves every value - the offered object's and the raw map's included - as it was."""
+    from ..common import Snapshot
+
+    cc = ctx.cc
+    item = cc.Schema()
+    for f in own["fields"]:
+        item[f["key"]] = _own_field(cc, f)
+    if own["inner"]:
+        for f in own["inner"]:
+            item["opts_in." + f["key"]] = _own_field(cc, f)
+    t = cc.make_type(item, "OwnOfferedT", module="vf_types") if own["astype"] else item
+    schema = cc.Schema(dynamic=True)
+    schema.first = cc.StringField(default="f")
+    home = schema.home if own["nest"] else schema
+    home.tpl = t
+    home.tpl2 = t
+    home.many = cc.ListField(t, default=lambda: [])
+    home.raw_dict = cc.DictField()
+    home.raw_any = cc.AnyField()
+    home.raw_list = cc.ListField()
+    schema.last = cc.IntField(default=1)
+    try:
+        cfg = schema()
+        holder = cfg.home if own["nest"] else cfg
+        pre = "home." if own["nest"] else ""
+        for n in range(own["prefill"]):
+            holder.many.append({"name_of": "item%d" % n})
+        holder.tpl2.name_of = "second"
+    except Exception:
+        res.count("own_objects_setup_failed")
+        return True
+
+    def offer(route, i, value, as_list):
+        many = holder.many
+        if route == "append":
+            many.append(value)
+        elif route == "insert":
+            many.insert(i, value)
+        elif route == "setitem":
+            many[i] = value
+        elif route == "assign-attr":
+            holder.many = as_list
+        elif route == "assign-item":
+            cfg[pre + "many"] = as_list
+        elif route == "section-attr":
+            holder.tpl = value
+        else:
+            cfg[pre + "tpl"] = value
+
+    for n, st in enumerate(own["steps"]):
+        many = holder.many
+        undo = None
+        try:
+            if st["what"] == "map":
+                m = {pr[0]: (dict(pr[1]) if len(pr) == 3 else pr[1]) for pr in st["pairs"]}
+                if st["holder"] == "dict":
+                    holder.raw_dict = m
+                    held = holder.raw_dict
+                elif st["holder"] == "any":
+                    holder.raw_any = m
+                    held = holder.raw_any
+                elif st["holder"] == "list":
+                    holder.raw_list = ["x", m]
+                    held = holder.raw_list[1]
+                else:
+                    cfg.extra_raw = m
+                    held = cfg.extra_raw
+                if held is not m:
+                    res.count("own_maps_not_held_by_reference")
+                obj, what = held, "the map held by the configuration's own %s field" % st["holder"]
+                counter = "own_maps_offered_to_sections_and_lists_rejected"
+            else:
+                if st["what"] == "section":
+                    obj, what = holder.tpl, "an incomplete section of the list's item type"
+                elif st["what"] == "reset-section":
+                    obj, what = holder.tpl2, "a section of the list's item type whose required value was reset"
+                    cc.reset_value(obj, "name_of")
+                    undo = obj
+                else:
+                    if not len(many):
+                        many.append({"name_of": "late"})
+                    obj, what = many[st["i"] % len(many)], "an item of the list whose required value was reset"
+                    cc.reset_value(obj, "name_of")
+                    undo = obj
+                counter = "own_sections_and_items_offered_to_a_list_rejected"
+            as_list = (list(many) if st.get("keep", True) else []) + [obj]
+        except Exception:
+            res.count("own_objects_step_setup_failed")
+            continue
+        before = Snapshot(cfg)
+        try:
+            offer(st["route"], st["i"], obj, as_list)
+        except Exception as exc:
+            res.count(counter)
+            res.count("same_checks")
+            d = before.diff(Snapshot(cfg))
+            if d:
+                res.viol("M-same", "own-object:%s:%s" % (st["what"] if st["what"] != "map" else "map-in-" + st["holder"], st["route"]),
+                         "own-object step %d: %s was offered (%s, position %r) and refused with %s: %s but the configuration changed: %s" % (
+                             n, what, st["route"], st["i"], type(exc).__name__, str(exc)[:100], "; ".join(d[:4])))
+                return False
+        else:
+            res.count("own_objects_offered_and_accepted")
+        if undo is not None:
+            try:
+                undo.name_of = "again%d" % n
+            except Exception:
+                pass
+    return True
 
 
 def _failed_loads_after_environment_change(ctx, res, seed):
